@@ -1189,3 +1189,148 @@ Theorem C07_tr_vi_findchar : forall m lb bln lbs lines br bo bc cst (cmdN : N) n
 Proof. exact tr_vi_findchar. Qed.
 Print Assumptions C07_tr_vi_findchar.
 End C07_translated_6.
+
+(* ================================================================================================
+   THE COUNT IN FRONT OF A MOTION (coq/MotCountDefs.v, MotCountProps.v).  vi() reads vi_arg1 = vi_prefix() off the pending keys and then
+   the motion; MotCountDefs.vi_prefix mirrors the C text over a list of keys (`c = vi_read(); if (c >= '1' && c <= '9') while
+   (isdigit(c)) { if (n < 100000000) n = n * 10 + c - '0'; c = vi_read(); } vi_back(c);`).  Stated for digit strings of ANY length:
+   every digit belongs to the count, the key behind the last digit is the motion key (a change that stops reading at saturation --
+   seeded/C07k -- makes the tenth digit a command of its own: refuted by C07_count_digits_consumed on the model and found by the
+   streams `bigcount` of tools/props/c07.py on the binary).  The extracted parse_motion / step_keys read the typed digits of those
+   streams themselves (ocaml/drv_mot.ml, request k:). *)
+From NV Require Import MotCountDefs MotCountProps.
+
+(* all the digits are consumed; what is left starts with the key that ended the count *)
+Theorem C07_count_digits_consumed : forall c0 ds rest, is_19 c0 = true -> digits ds -> stops rest ->
+  vi_prefix ((c0 :: ds) ++ rest) = (sat_count (c0 :: ds), rest).
+Proof. exact vi_prefix_digits. Qed.
+Print Assumptions C07_count_digits_consumed.
+
+(* a key other than 1..9 starts no count -- `0` is the motion to column 0 *)
+Theorem C07_count_none : forall c rest, is_19 c = false -> vi_prefix (c :: rest) = (0, c :: rest).
+Proof. exact vi_prefix_none. Qed.
+Print Assumptions C07_count_none.
+
+(* the value: the decimal value for up to nine digits; from nine digits on the value of the first nine (a number in
+   [10^8, 10^9): the saturation of the C text), whatever digits and however many follow *)
+Theorem C07_count_value_short : forall ds, digits ds -> (length ds <= 9)%nat -> sat_count ds = dec_value ds.
+Proof. exact sat_count_short. Qed.
+Print Assumptions C07_count_value_short.
+Theorem C07_count_value_saturated : forall c0 ds, is_19 c0 = true -> digits ds -> (8 <= length ds)%nat ->
+  sat_count (c0 :: ds) = dec_value (c0 :: firstn 8 ds) /\ 100000000 <= sat_count (c0 :: ds) < 1000000000.
+Proof. exact sat_count_long. Qed.
+Print Assumptions C07_count_value_saturated.
+Theorem C07_count_value_range : forall c0 ds, is_19 c0 = true -> digits ds -> 1 <= sat_count (c0 :: ds) < 1000000000.
+Proof. exact sat_count_range. Qed.
+Print Assumptions C07_count_value_range.
+
+(* digits ++ motion key: exactly the digits are the count, the key is the motion, the rest is untouched; also with the
+   character argument of f F t T *)
+Theorem C07_count_parse_motion : forall c0 ds key mk rest, is_19 c0 = true -> digits ds -> is_digit key = false ->
+  plain_key key = Some mk ->
+  parse_motion ((c0 :: ds) ++ key :: rest) = Some (sat_count (c0 :: ds), mk, rest).
+Proof. exact parse_motion_count. Qed.
+Print Assumptions C07_count_parse_motion.
+Theorem C07_count_parse_motion_none : forall key mk rest, is_19 key = false -> plain_key key = Some mk ->
+  parse_motion (key :: rest) = Some (0, mk, rest).
+Proof. exact parse_motion_nocount. Qed.
+Print Assumptions C07_count_parse_motion_none.
+Theorem C07_count_parse_find : forall c0 ds key a0 a rest, is_19 c0 = true -> digits ds -> is_find key = true ->
+  let k := Nat.max 1 (uc_len (a0 :: a)) in
+  exists mk, find_key key (firstn k (a0 :: a ++ rest)) = Some mk /\
+  (uc_len (a0 :: a ++ rest) = uc_len (a0 :: a)) /\
+  parse_motion ((c0 :: ds) ++ key :: a0 :: a ++ rest) = Some (sat_count (c0 :: ds), mk, skipn k (a0 :: a ++ rest)).
+Proof. exact parse_motion_count_find. Qed.
+Print Assumptions C07_count_parse_find.
+
+(* vi_cnt (long long product saturated at 2^30, fix 164b6b4): of ONE count as vi_prefix returns it, the count itself *)
+Theorem C07_count_vi_cnt : forall n, 0 <= n < 1000000000 -> vi_cnt n 0 = MotProps.m_cnt n 0 /\ MotProps.m_cnt n 0 = Z.max 1 n.
+Proof. exact vi_cnt_single. Qed.
+Print Assumptions C07_count_vi_cnt.
+Theorem C07_count_vi_cnt_range : forall a1 a2, 1 <= vi_cnt a1 a2 <= 1073741824.
+Proof. exact vi_cnt_range. Qed.
+Print Assumptions C07_count_vi_cnt_range.
+
+(* the model that the correspondence runs on counts of 10^9 (the loops over a binary counter, leaving at the first step that
+   breaks or does not move; f F t T ; , failing at once above the line length) IS do_motion whenever it answers; typed keys *)
+Theorem C07_count_model_z : forall b rows a1 a2 k s r, do_motion_z b rows a1 a2 k s = Some r -> do_motion b rows a1 a2 k s = r.
+Proof. exact do_motion_z_sound. Qed.
+Print Assumptions C07_count_model_z.
+Theorem C07_count_typed_keys : forall b rows ks s s' rest, step_keys b rows ks s = KOk s' rest ->
+  exists n k, parse_motion ks = Some (n, k, rest) /\ do_motion b rows n 0 k s = Some s'.
+Proof. exact step_keys_sound. Qed.
+Print Assumptions C07_count_typed_keys.
+
+(* count_beyond_clamps.  Line motions + - _ j k G H L M N%: from count_cap = lines + |window height| + |window top| + 101 on
+   every count gives the same row (N%: the same failure) -- hence the same state after the command; the row is the last line for
+   j + _ G H, the first for k - L *)
+Theorem C07_count_beyond_clamps_lines : forall b rows top k row c1 c2, 0 <= row < Z.max 1 (blen b) ->
+  count_cap b rows top <= c1 -> count_cap b rows top <= c2 ->
+  vi_motionln b rows top true c1 k row = vi_motionln b rows top true c2 k row.
+Proof. exact line_count_beyond. Qed.
+Print Assumptions C07_count_beyond_clamps_lines.
+Theorem C07_count_beyond_clamps_target : forall b rows top k row c, 0 <= row < Z.max 1 (blen b) -> count_cap b rows top <= c ->
+  MotProps.is_linekey k = true ->
+  MotProps.line_target b rows top true c k row =
+  match k with
+  | Kj | Kplus | Kunder | KG | KH => Z.max 0 (blen b - 1)
+  | KM => MotProps.line_target b rows top true 1 k row
+  | _ => 0
+  end.
+Proof. exact line_count_beyond_target. Qed.
+Print Assumptions C07_count_beyond_clamps_target.
+Theorem C07_count_beyond_clamps : forall b rows k s c1 c2, MotProps.is_linekey k = true \/ k = Kpct ->
+  0 <= v_row s < Z.max 1 (blen b) ->
+  count_cap b rows (v_top s) <= c1 -> count_cap b rows (v_top s) <= c2 ->
+  do_motion b rows c1 0 k s = do_motion b rows c2 0 k s.
+Proof. exact do_motion_line_count_beyond. Qed.
+Print Assumptions C07_count_beyond_clamps.
+(* h l: from the length of the line on, the first character / the last character before the terminator *)
+Theorem C07_count_beyond_clamps_h_l : forall b rows top cl cc pc has c row off l, buf_wf b -> getl b row = Some l ->
+  0 <= off < slen l -> slen l <= c ->
+  vi_motion b rows top cl cc pc has c Kh row off = MvOk row 0 cl cc pc /\
+  vi_motion b rows top cl cc pc has c Kl row off = MvOk row (Z.max off (slen l - 2)) cl cc pc.
+Proof. exact hl_count_beyond. Qed.
+Print Assumptions C07_count_beyond_clamps_h_l.
+(* f F t T ; , : above the length of the line the motion fails (the cursor stays: C07_fail_in_place) *)
+Theorem C07_count_beyond_fails_find : forall b rows top cl cc pc has c k row off, is_findkey k = true -> row_len b row < c ->
+  exists cl' cc', vi_motion b rows top cl cc pc has c k row off = MvFail cl' cc'.
+Proof. exact find_count_beyond. Qed.
+Print Assumptions C07_count_beyond_fails_find.
+(* N| : from the terminator's column on, the terminator (then ren_noeol: the last character) *)
+Theorem C07_count_beyond_clamps_bar : forall l p, 0 < slen l -> 0 <= p -> ren_pos l (slen l - 1) <= p -> ren_off l p = slen l - 1.
+Proof. exact bar_count_beyond. Qed.
+Print Assumptions C07_count_beyond_clamps_bar.
+(* the loops h l w b e W B E { } space backspace: once some count n reaches a position where one more step stays in place (the
+   step reports the edge, or does not move), every count above n lands there *)
+Theorem C07_count_beyond_clamps_loops : forall b rows top cl cc pc has k row off step n r o, key_step b k = Some step ->
+  0 <= n -> vi_motion b rows top cl cc pc has n k row off = MvOk r o cl cc pc ->
+  (step (r, o) = Some (true, (r, o)) \/ step (r, o) = Some (false, (r, o))) ->
+  forall c, n <= c -> vi_motion b rows top cl cc pc has c k row off = MvOk r o cl cc pc.
+Proof. exact loop_count_beyond. Qed.
+Print Assumptions C07_count_beyond_clamps_loops.
+
+(* non-vacuity: `ll1234567890j` on four lines -- ten digits, one count, one motion: last line, column kept; `1000000002l`: the
+   last character; twenty digits; 10^9 steps of `}` decided at the first step that does not move; a count then `0`: the 0 is a digit *)
+Definition count_witness : buf := buf_of_bytes [97;98;99;32;100;101;102;10; 106;107;108;10; 115;116;117;32;118;10; 48;49;50;51;10]%N.
+Example C07_count_nonvacuous :
+  parse_motion [49;50;51;52;53;54;55;56;57;48;106;105]%N = Some (123456789, Kj, [105]%N) /\
+  vi_prefix [49;48;48;48;48;48;48;48;48;50;108]%N = (100000000, [108]%N) /\
+  vi_prefix [57;57;57;57;57;57;57;57;57;57;57;57;57;57;57;57;57;57;57;57;119]%N = (999999999, [119]%N) /\
+  vi_prefix [53;48]%N = (50, []) /\ vi_prefix [48;53;106]%N = (0, [48;53;106]%N) /\
+  (exists s, step_keys count_witness 23 [49;50;51;52;53;54;55;56;57;48;106]%N (mk_vst 0 2 2 0 [] 0%N 0) = KOk s [] /\
+             v_row s = 3 /\ v_off s = 2 /\ v_col s = 2) /\
+  (exists s, step_keys count_witness 23 [49;48;48;48;48;48;48;48;48;50;108]%N init_vst = KOk s [] /\ v_row s = 0 /\ v_off s = 6) /\
+  (exists s, step_keys count_witness 23 [57;57;57;57;57;57;57;57;57;57;125]%N init_vst = KOk s [] /\ v_row s = 3 /\ v_off s = 0) /\
+  buf_wf count_witness /\ count_cap count_witness 23 0 = 128.
+Proof.
+  split; [vm_compute; reflexivity|]. split; [vm_compute; reflexivity|]. split; [vm_compute; reflexivity|].
+  split; [vm_compute; reflexivity|]. split; [vm_compute; reflexivity|].
+  split; [eexists; split; [vm_compute; reflexivity|repeat split]|].
+  split; [eexists; split; [vm_compute; reflexivity|repeat split]|].
+  split; [eexists; split; [vm_compute; reflexivity|repeat split]|].
+  split; [|vm_compute; reflexivity].
+  unfold buf_wf. let v := eval vm_compute in count_witness in change count_witness with v.
+  repeat (apply Forall_cons; [match goal with |- line_wf ?l => exists (removelast l); split; [reflexivity|cbn [removelast]; repeat constructor; discriminate] end|]).
+  apply Forall_nil.
+Qed.
